@@ -382,12 +382,16 @@ func c12Sys(env *core.Env) {
 	for _, sp := range []string{"Foo", "FHIR.Foo", "Bar.string", "System.Patient", "System.string", "FHIR.String", "FHIR.Integer", "patient", "humanName", "system.String", "fhir.string", "System.Foo", "A.B.C", "Strings", "FHIR.System.String"} {
 		for _, op := range []string{"is", "as"} {
 			env.Cover("invalid-specifier")
-			src := "1 " + op + " " + sp
-			_, cr := fx.Compile(env, src)
-			if cr.IsPanic() {
-				env.Violatef(fx.PanicSig("C12", cr), "Compile(`%s`) => %s", src, cr.Short())
-			} else if cr.Kind != "cerror" {
-				env.Violatef("C12/invalid-specifier-accepted/"+sp, "Compile(`%s`) accepts an unknown type name or namespace", src)
+			// ... wherever the type expression stands: alone, as either operand, in brackets, in arguments and criteria
+			for pi, tmpl := range []string{"1 OP SP", "true and (Patient.active OP SP)", "(Patient.active OP SP) and true", "1 + (Patient.multipleBirth OP SP)", "Patient.name[(1 OP SP).count()]", "Patient.name.where(use OP SP)", "iif(true, 1, 1 OP SP)",
+				"1 = (1 OP SP)", "(1 OP SP) | 2", "2 | (1 OP SP)", "1 > (2 OP SP)", "'a' & (1 OP SP)", "true or (1 OP SP)", "false implies (1 OP SP)", "1 in (1 OP SP)", "Patient.name.select(given OP SP)", "-(1 OP SP)", "(1 OP SP).exists()", "Patient.OP(SP)", "true xor Patient.OP(SP)"} {
+				src := strings.ReplaceAll(strings.ReplaceAll(tmpl, "OP", op), "SP", sp)
+				_, cr := fx.Compile(env, src)
+				if cr.IsPanic() {
+					env.Violatef(fx.PanicSig("C12", cr), "Compile(`%s`) => %s", src, cr.Short())
+				} else if cr.Kind != "cerror" {
+					env.Violatef("C12/invalid-specifier-accepted/"+sp+fmt.Sprintf("/position-%d", pi), "Compile(`%s`) accepts an unknown type name or namespace", src)
+				}
 			}
 		}
 	}
